@@ -116,7 +116,7 @@ def gen_new_exhaustive(thorough, rnd):
                         out.append(new_case(list(lv), [tm], [c], rel, loop, scalar_cv=rnd.randrange(2),
                                             scalar_tm=int(tm != Z and rnd.randrange(2))))
     # two segments: times and curves of length 1 (wrapping) and 2
-    C = [cv('lin'), cv('hold'), cnum(-4)] + ([cv('step'), cv('exp')] if thorough else [])
+    C = [cv('lin'), cv('hold'), cnum(-4)] + ([cv('step')] if thorough else [])
     for lv in itertools.product(L, repeat=3):
         for tm in seqs(T, 1, 2):
             for cs in seqs(C, 1, 2):
@@ -295,7 +295,7 @@ def judge(ctx, traces, label):
 def run(ctx):
     thorough = not ctx.quick
     rnd = random.Random(ctx.seed + 19)
-    DENSE[0] = thorough
+    DENSE[0] = False
     acts = ('New', 'Triangle', 'Sine', 'Perc', 'Linen', 'Step', 'Cutoff', 'Dadsr', 'Adsr', 'Asr', 'Xyc', 'Pairs',
             'Query')
     # 1. design model: every envelope the constructors build from the constant sets satisfies the laws
@@ -314,8 +314,10 @@ def run(ctx):
     n_ex = len(cases)
     cases += gen_ctors(thorough, rnd)
     n_ct = len(cases) - n_ex
-    nr = 6000 if thorough else 600
+    nr = 3000 if thorough else 600
+    DENSE[0] = thorough        # the random envelopes are also evaluated near every breakpoint
     cases += gen_new_random(rnd, nr, 10 if thorough else 6)
+    DENSE[0] = False
     # every k-th enumerated envelope also goes through a SynthDef
     k = 25 if thorough else 40
     for i, c in enumerate(cases[:n_ex]):
@@ -339,7 +341,7 @@ def run(ctx):
 
     # 3. S->C: envelopes and values produced by the specification replayed on the real class
     from harness import tlc
-    nsim = 400 if thorough else 40
+    nsim = 400 if thorough else 25
     behs, r = tlc.simulate_behaviours('Env', 'Env_sim.cfg', ctx.work, num=nsim, depth=8, seed=ctx.seed + 1,
                                       timeout=900)
     ctx.cov['transitions'] += r.generated
